@@ -276,13 +276,13 @@ func raceSchemeScenarios() []raceScenario {
 			P2 := p.G2.Group.Point().Add(p.G2.Group.Point().Mul(b, nil), p.G2.Group.Point().Mul(a, nil))
 			return P1, P2
 		}
-		out = append(out, raceScenario{"pairing", "Pair", p.Name, func() (func() string, string) {
+		out = append(out, raceScenario{"pairing-" + p.Name, "Pair", p.Name, func() (func() string, string) {
 			P1, P2 := mk()
 			w1, w2 := mk()
 			want := rmar(p.Suite.Pair(w1, w2))
 			return func() string { return rmar(p.Suite.Pair(P1, P2)) }, want
 		}})
-		out = append(out, raceScenario{"pairing", "ValidatePairing", p.Name, func() (func() string, string) {
+		out = append(out, raceScenario{"pairing-" + p.Name, "ValidatePairing", p.Name, func() (func() string, string) {
 			P1, P2 := mk()
 			// e(P1, B2) == e(B1, (a+b)·B2)
 			s := p.G1.Group.Scalar().Add(a, b)
